@@ -754,6 +754,10 @@ def run(prog, rep, tier):
     check_list_args_copied(prog, rep)
     if check_param_icall(prog, rep, inplace) < 2:
         raise AnalysisError('OWN-param-icall: the confirmed instances were not found')
+    rep.rule('COPY-mixed-update', 'classes with a shallow copy(): a method never replaces one '
+             'per-site list and updates a sibling list element-wise (the copy would be half updated)')
+    if check_copy_mixed_update(prog, rep) < 1:
+        raise AnalysisError('COPY-mixed-update: MPO.sort_legcharges not recognised')
     rep.floor('OWN-write', 150)
     rep.assumptions += ['origin U (unknown) is never flagged: the analysis may miss, not invent',
                         'numpy view/copy table in sa/own.py',
@@ -764,3 +768,61 @@ def run(prog, rep, tier):
         explanation='Ownership analysis over %d in-place write sites of np_conserved.py, '
         'charges.py, sparse.py, truncation.py, krylov_based.py with return-origin and deep-write '
         'summaries computed from the current source.' % n)
+
+
+# ------------------------------------------------------------------ COPY-mixed-update
+def check_copy_mixed_update(prog, rep):
+    """COPY-mixed-update: a class whose copy() is `copy.copy(self)` shares its list attributes
+    with every shallow copy. A method that REPLACES one of these lists (`self._W = new`) but updates
+    a sibling list element-wise (`self.IdL[b] = ...`) changes the object it was called on AND half
+    of every copy / the source it was copied from, which is left inconsistent (old tensors, new
+    indices). Within one method the per-site list attributes are either all rebound or all updated
+    in place; a list rebound earlier in the same method (`self.IdL = list(self.IdL)`) is fresh."""
+    ct = prog.classtable()
+    n = 0
+    for ci in ct.all:
+        cp = ci.methods.get('copy')
+        if cp is None or not any(isinstance(r, ast.Return) and r.value is not None and
+                                 unparse(r.value) == 'copy.copy(self)' for r in ast.walk(cp)):
+            continue
+        # list-valued attributes: bound from list displays / list(...) / comprehensions in this class
+        listattrs = set()
+        for f in ci.methods.values():
+            for a in ast.walk(f):
+                if isinstance(a, ast.Assign):
+                    for t in a.targets:
+                        if is_self_attr(t) and (isinstance(a.value, (ast.List, ast.ListComp)) or (
+                                isinstance(a.value, ast.Call) and call_name(a.value) == 'list') or (
+                                    isinstance(a.value, ast.BinOp) and isinstance(
+                                        a.value.left, ast.List))):
+                            listattrs.add(t.attr)
+        for name, f in ci.methods.items():
+            if name in ('__init__', 'copy', 'from_hdf5', '__setstate__'):
+                continue
+            rebound = {}
+            stores = []
+            for st in stmts_of(f):
+                if isinstance(st, ast.Assign):
+                    for t in st.targets:
+                        if is_self_attr(t):
+                            rebound.setdefault(t.attr, st.lineno)
+                        if isinstance(t, ast.Subscript) and is_self_attr(t.value):
+                            stores.append((t.value.attr, st))
+            rb = {a for a in rebound if a in listattrs or a.lstrip('_') in ('W', 'B', 'S')}
+            if not rb or not stores:
+                continue
+            n += 1
+            bad = [(a, st) for a, st in stores if a not in rebound or rebound[a] > st.lineno]
+            rep.instance('COPY-mixed-update', {'class': ci.name, 'method': name,
+                                               'rebound': sorted(rb),
+                                               'element_stores': sorted({a for a, _ in stores}),
+                                               'mixed': bool(bad)})
+            for a, st in bad:
+                rep.violation('COPY-mixed-update', ci.module, '%s.%s' % (ci.name, name),
+                              'shared-list-store:' + a,
+                              '`%s` stores into the list `self.%s`, which a shallow copy() shares, '
+                              'while the same method replaces `self.%s` by a new list: after '
+                              '`cp = x.copy(); cp.%s()` the source x keeps its old `%s` but sees '
+                              'the new entries of `%s`' % (key_text(st)[:60], a, sorted(rb)[0],
+                                                           name, sorted(rb)[0], a), st.lineno)
+    return n
